@@ -111,19 +111,19 @@ macro_rules! inst {
 inst!(c12_chunks_n0, 0, Split::Chunks, 4);
 // HV: {"name":"c12_chunks_n1","prop":"C12","kernel":"TokenStringExt::iter_chunks","bound":"1 token of 10 kinds","fns":["harper_core::token_string_ext::TokenStringExt::iter_chunks"]}
 inst!(c12_chunks_n1, 1, Split::Chunks, 5);
-// HV: {"name":"c12_chunks_n2","prop":"C12","kernel":"TokenStringExt::iter_chunks","bound":"2 tokens of 10 kinds each","fns":["harper_core::token_string_ext::TokenStringExt::iter_chunks"],"cost":5}
+// HV: {"name": "c12_chunks_n2", "prop": "C12", "kernel": "TokenStringExt::iter_chunks", "bound": "2 tokens of 10 kinds each", "fns": ["harper_core::token_string_ext::TokenStringExt::iter_chunks"], "cost": 5, "tier": "thorough", "mem_gb": 20, "mem_expect_gb": 10, "timeout_s": 2400}
 inst!(c12_chunks_n2, 2, Split::Chunks, 6);
-// HV: {"name":"c12_chunks_n3","prop":"C12","kernel":"TokenStringExt::iter_chunks","bound":"3 tokens of 10 kinds each","fns":["harper_core::token_string_ext::TokenStringExt::iter_chunks"],"cost":8}
+// HV: {"name": "c12_chunks_n3", "prop": "C12", "kernel": "TokenStringExt::iter_chunks", "bound": "3 tokens of 10 kinds each", "fns": ["harper_core::token_string_ext::TokenStringExt::iter_chunks"], "cost": 8, "tier": "thorough", "mem_gb": 30, "mem_expect_gb": 14, "timeout_s": 3000}
 inst!(c12_chunks_n3, 3, Split::Chunks, 7);
-// HV: {"name":"c12_chunks_n4","prop":"C12","tier":"thorough","kernel":"TokenStringExt::iter_chunks","bound":"4 tokens of 10 kinds each","fns":["harper_core::token_string_ext::TokenStringExt::iter_chunks"],"cost":10,"mem_gb":30,"mem_expect_gb":12}
+// (not admitted: N=3 already needs > 13 GB) {"name": "c12_chunks_n4", "prop": "C12", "tier": "thorough", "kernel": "TokenStringExt::iter_chunks", "bound": "4 tokens of 10 kinds each", "fns": ["harper_core::token_string_ext::TokenStringExt::iter_chunks"], "cost": 10, "mem_gb": 30, "mem_expect_gb": 12}
 inst!(c12_chunks_n4, 4, Split::Chunks, 8);
-// HV: {"name":"c12_sentences_n2","prop":"C12","kernel":"TokenStringExt::iter_sentences","bound":"2 tokens of 10 kinds each","fns":["harper_core::token_string_ext::TokenStringExt::iter_sentences"],"cost":5}
+// HV: {"name": "c12_sentences_n2", "prop": "C12", "kernel": "TokenStringExt::iter_sentences", "bound": "2 tokens of 10 kinds each", "fns": ["harper_core::token_string_ext::TokenStringExt::iter_sentences"], "cost": 5, "tier": "thorough", "mem_gb": 20, "mem_expect_gb": 9, "timeout_s": 2400}
 inst!(c12_sentences_n2, 2, Split::Sentences, 6);
-// HV: {"name":"c12_sentences_n3","prop":"C12","kernel":"TokenStringExt::iter_sentences","bound":"3 tokens of 10 kinds each","fns":["harper_core::token_string_ext::TokenStringExt::iter_sentences"],"cost":8}
+// HV: {"name": "c12_sentences_n3", "prop": "C12", "kernel": "TokenStringExt::iter_sentences", "bound": "3 tokens of 10 kinds each", "fns": ["harper_core::token_string_ext::TokenStringExt::iter_sentences"], "cost": 8, "tier": "thorough", "mem_gb": 30, "mem_expect_gb": 14, "timeout_s": 3000}
 inst!(c12_sentences_n3, 3, Split::Sentences, 7);
 // HV: {"name":"c12_paragraphs_n2","prop":"C12","kernel":"TokenStringExt::iter_paragraphs","bound":"2 tokens of 10 kinds each","fns":["harper_core::token_string_ext::TokenStringExt::iter_paragraphs"],"cost":5}
 inst!(c12_paragraphs_n2, 2, Split::Paragraphs, 6);
-// HV: {"name":"c12_paragraphs_n3","prop":"C12","kernel":"TokenStringExt::iter_paragraphs","bound":"3 tokens of 10 kinds each","fns":["harper_core::token_string_ext::TokenStringExt::iter_paragraphs"],"cost":8}
+// HV: {"name": "c12_paragraphs_n3", "prop": "C12", "kernel": "TokenStringExt::iter_paragraphs", "bound": "3 tokens of 10 kinds each", "fns": ["harper_core::token_string_ext::TokenStringExt::iter_paragraphs"], "cost": 8, "tier": "thorough", "mem_gb": 30, "mem_expect_gb": 14, "timeout_s": 3000}
 inst!(c12_paragraphs_n3, 3, Split::Paragraphs, 7);
-// HV: {"name":"c12_paragraphs_n4","prop":"C12","tier":"thorough","kernel":"TokenStringExt::iter_paragraphs","bound":"4 tokens of 10 kinds each","fns":["harper_core::token_string_ext::TokenStringExt::iter_paragraphs"],"cost":10,"mem_gb":30,"mem_expect_gb":12}
+// (not admitted: N=3 already needs 7 GB / 340 s) {"name": "c12_paragraphs_n4", "prop": "C12", "tier": "thorough", "kernel": "TokenStringExt::iter_paragraphs", "bound": "4 tokens of 10 kinds each", "fns": ["harper_core::token_string_ext::TokenStringExt::iter_paragraphs"], "cost": 10, "mem_gb": 30, "mem_expect_gb": 12}
 inst!(c12_paragraphs_n4, 4, Split::Paragraphs, 8);
